@@ -228,6 +228,20 @@ func (g *genCtx) value(t Ty, path string) interface{} {
 				}
 			}
 		}
+		if len(g.cfg.KeyAlphabet) > 0 && n > 0 && g.h(path+"|suffixtwin")%4 == 0 {
+			// a key which ends in "_" + another key (fork names are joined with
+			// underscores), sorting before or after it
+			ks := make([]string, 0, len(m))
+			for k := range m {
+				ks = append(ks, k)
+			}
+			sort.Strings(ks)
+			k := ks[int(g.h(path+"|suffixkey")%uint64(len(ks)))]
+			tw := []string{"0_", "z_", "A_", "a_b_"}[int(g.h(path+"|suffixpre")%4)] + k
+			if _, dup := m[tw]; !dup {
+				m[tw] = g.value(t.Elem(), path+"{"+tw+"}")
+			}
+		}
 		return m
 	}
 	h := g.h(path)
